@@ -20,6 +20,7 @@
     60 SPROV   p n sig*                                 -> [0 handle] | [1 status]   (OpenProviderStream: ProvideActuationRequest)
     61 SPUB    p h n (id vflag [value])*                -> [0 nerr (id code)*]       (PublishValuesRequest on the stream of provider h, opened by p)
     62 V1STR   p n (updates as in V1SET)                -> [0 nerr (k code)*]        (one StreamedUpdateRequest on the stream principal p keeps open)
+    64 LPROV   p n sig*                                 -> as 60; the provider reads what the broker sends it only when an operation cannot move any more, and at dumps
     63 SDVSTR  p n (id vflag [value])*                  -> [0 nerr (id code)*]       (one StreamDatapointsRequest on the stream principal p keeps open)
 
    sig ::= 0 (signal_id absent) | 1 (oneof unset) | 2 path | 3 id ;  xflag 0 = field absent.
@@ -220,6 +221,8 @@ Definition decode_api (l : list Z) : option api_op :=
   | 33 :: p :: n :: r => option_map (V1Sub p) (dec_sub_entries (Z.to_nat n) r)
   | 34 :: p :: buf :: n :: r => option_map (V2Sub p buf) (dec_sigs (Z.to_nat n) r)
   | 60 :: p :: n :: r => option_map (SProv p) (dec_sigs (Z.to_nat n) r)
+  (* 64: the same claim by a provider that reads its stream lazily (a difference of the harness only) *)
+  | 64 :: p :: n :: r => option_map (SProv p) (dec_sigs (Z.to_nat n) r)
   | 61 :: p :: h :: n :: r => option_map (SPub p h) (dec_id_values (Z.to_nat n) r)
   | 62 :: p :: n :: r => option_map (V1Str p) (dec_v1_updates (Z.to_nat n) r)
   | 63 :: p :: n :: r => option_map (SdvStr p) (dec_id_values (Z.to_nat n) r)
